@@ -579,7 +579,7 @@ theorem mplsCount_terminates (hA : LawfulArith A) (hex : A.exact = false) (s0 : 
 /-- **C01 / C09, Minneapolis without undeclared write-ins** -/
 theorem mpls_result (hA : LawfulArith A) (hex : A.exact = false) (s0 t : St α) (h0 : GStart A (mplsQuota A s0) s0)
     (hnu : NoUnd s0) (h : mplsCount A s0 = some t) :
-    RecMon (snaps t.acts) ∧ Ext s0 t ∧ (t.crash = none → nEl t = t.seats ∧ nHop t = 0) := by
+    Mon t ∧ Ext s0 t ∧ (t.crash = none → nEl t = t.seats ∧ nHop t = 0) := by
   obtain ⟨hinit, hX0, _⟩ := mplsInit_inv A hA h0 hnu
   unfold mplsCount at h
   cases hl : loopN (fun _ => true) (mplsBody A) (2 * s0.cands.length + 4) (mplsInit A s0) with
@@ -591,7 +591,7 @@ theorem mpls_result (hA : LawfulArith A) (hex : A.exact = false) (s0 t : St α) 
       (fun s hs _ => (mplsBody_spec A hA hex hs).2.1) _ _ _ hinit hl
     obtain ⟨hE, hM, hD, hJ, _⟩ := hP
     obtain ⟨e1, e2, e3, e4, e5, e6⟩ := mplsEpilogue_spec A (s := s4) ⟨hE.1, hM⟩
-    refine ⟨e1.2.1, hX0.trans (hX.trans e2), ?_⟩
+    refine ⟨e1.2, hX0.trans (hX.trans e2), ?_⟩
     intro hcr
     rw [e3] at hcr
     have hfin : nEl s4 = s4.seats ∨ (s4.hopeful.length : Int) ≤ s4.seatsLeft := by
